@@ -1,6 +1,7 @@
 """C07 - a violation always surfaces as the contract's error with the true condition text."""
 import exprprop
 import implexpr
+import directed
 
 DESCRIPTION = ("Lean: Props/C07.lean (whenever Python evaluates a well-formed condition, the re-evaluation returns normally - so "
                "the violation is never replaced by 'Failed to recompute' - and every node it computes outside comprehension "
@@ -37,11 +38,17 @@ TRICKY = [
     (["t"], "len(t) > 0 and len(t[0]) > 0", {"t": []}),
     (["a", "b"], "not a or b[0]", {"a": 1, "b": [0]}),
 ]
-NEIGHBOURS = [{"from": "C09", "limit": 400, "why": "a violation raised with the message built from the call's values"}]
+NEIGHBOURS = [{"from": "C09", "limit": 400, "why": "a violation raised with the message built from the call's values"},
+              {"from": "C06", "limit": 500, "why": "the re-evaluation that builds the text computes Python's values"}]
+
+
+run_directed = directed.run
 
 
 def cases(tier, rng):
     thorough = tier == "thorough"
+    for c in directed.rewritten_file_cases():
+        yield "directed-rewritten-file", c
     for c in exprprop.special_cases(rng):
         yield "special", c
     for params, expr, env in TRICKY:
@@ -92,6 +99,7 @@ def run_impl(case):
 
 
 def spec(case, mos, io):
+    exprprop.mark_fragment(case, mos)
     return exprprop.check_surface(case, io)
 
 
